@@ -360,6 +360,19 @@ def b_earth(rng, tier):
             except Exception as ex:
                 ok, det = False, repr(ex)
             yield ((round(l1, 6), round(p1, 6), round(l2, 6), round(p2, 6)), ok, det)
+    # Earth.rho(latitude): the geocentric radius from the short series (IAU 1976 coefficients) is the length of the sea-level
+    # pair (rho sin phi', rho cos phi') of that ellipsoid (the series is good to 4e-8)
+    from pymeeus.Earth import IAU76
+    e76 = Earth(IAU76)
+    for i in range(0, 361):
+        lat = -90.0 + 0.5 * i
+        for latv in (lat, Angle(lat)):
+            try:
+                r_series = e76.rho(latv)
+                r_pair = math.hypot(e76.rho_sinphi(latv, 0.0), e76.rho_cosphi(latv, 0.0))
+                yield (("rho", lat, type(latv).__name__), abs(r_series - r_pair) < 5e-7, (r_series, r_pair))
+            except Exception as ex:
+                yield (("rho", lat, type(latv).__name__), False, repr(ex))
     # parallax
     e = Earth()
 
